@@ -934,7 +934,7 @@ class Columns(Widget, WidgetContainerMixin, WidgetContainerListContentsMixin):
 
         if len(size) == 1:
             if heights:
-                max_height = max(heights.values())
+                max_height = max(1, *heights.values())
                 if box_need_height:
                     warnings.warn(
                         f"Widgets in columns {box_need_height} "
@@ -1008,6 +1008,9 @@ class Columns(Widget, WidgetContainerMixin, WidgetContainerListContentsMixin):
         canvas = CanvasJoin(data)
         if size and canvas.cols() < size[0]:
             canvas.pad_trim_left_right(0, size[0] - canvas.cols())
+        if len(size) == 1 and canvas.rows() < 1:
+            # rows() never reports less than one row
+            canvas.pad_trim_top_bottom(0, 1)
         return canvas
 
     def get_cursor_coords(self, size: tuple[()] | tuple[int] | tuple[int, int]) -> tuple[int, int] | None:
